@@ -1,6 +1,6 @@
 (* C25 - property theorems. *)
 From Coq Require Import String.
-From V Require Import Lib.Base C25.Model C25.Proofs C25.Gen.
+From V Require Import Lib.Base C25.Model C25.Proofs C25.Gen C25.Seq C25.SeqProofs.
 
 (* For every number of goroutines, every call history (any kinds, in particular acquire /
    re-acquire / query / release / has-tx / next-tx / sizes / submit / get-peers), every
@@ -52,3 +52,34 @@ Proof. eexists. split; vm_compute; reflexivity. Qed.
 Definition bad_entries := filter (fun x => negb (snd x)) lock_table.
 Theorem C25_lock_discipline : bad_entries = [] /\ 40 <= length lock_table.
 Proof. split; [vm_compute; reflexivity|]. vm_compute. repeat constructor. Qed.
+
+(* C25_lsq_sequences.  Local-state-query call sequences across acquire / re-acquire /
+   release, for every sequence, every server era assignment, with or without a stored era
+   cache: the call made after any prefix satisfies [call_ok]:
+   - GetCurrentEra returns the era of the reply to a CurrentEra request sent SINCE the last
+     acquire / re-acquire / release (never one from before), and without a stored cache
+     (the pinned code) to the request this very call sent;
+   - an era-dependent (Shelley) query carries such an era and returns the reply to its own query;
+   - an era-independent query returns the reply to its own query;
+   - acquire / re-acquire / release send exactly one message and leave no cached era. *)
+Theorem C25_lsq_sequences : forall era_at store cs c s os s' o,
+  do_calls era_at store linit cs = (s, os) ->
+  do_call era_at store s c = (s', o) ->
+  call_ok era_at store c s' o.
+Proof.
+  intros era_at store cs c s os s' o E1 E2.
+  pose proof (do_calls_inv era_at store cs _ _ _ (sinv_init era_at store) E1) as I.
+  exact (proj2 (do_call_spec era_at store _ _ _ _ I E2)).
+Qed.
+Print Assumptions C25_lsq_sequences.
+
+(* the seeded failure pattern is excluded: era query, re-acquire, era query -> the second
+   call sends its own request (index 3) and returns that reply, not the first one *)
+Example C25_lsq_reacquire_example :
+  let era_at i := i + 10 in
+  snd (do_calls era_at false linit [CAcquire 1; CEra; CAcquire 2; CEra]) =
+  [ {| o_reqs := [(0, RAcquire 1)]; o_result := None |};
+    {| o_reqs := [(1, REraQ)]; o_result := Some 11 |};
+    {| o_reqs := [(2, RReacquire 2)]; o_result := None |};
+    {| o_reqs := [(3, REraQ)]; o_result := Some 13 |} ].
+Proof. reflexivity. Qed.
